@@ -174,21 +174,7 @@ def main():
             violations.append(runner.Failure(oid=x['oid'], addr=x['addr'], kind='ownership', message='ownership condition not met: ' + x['why'],
                                              gen_line=0, src_file=x['src_file'], src_line=x['src_line'], tags=x['tags'],
                                              rendered='syntactic ownership check (Rust drop rules) failed in %s: %s' % (x['addr'], x['why'])))
-    # C14: syntactic frame -- the persist state is consulted only inside persist_on_policy (and set in open)
     scan_fail = []
-    if prop == 'C14':
-        allowed = {'multi_record_log.rs::MultiRecordLog::persist_on_policy', 'multi_record_log.rs::MultiRecordLog::open_with_prefs'}
-        for f in res.fns:
-            if not hasattr(f, '_seg_range') or f.src_file == 'persist_policy.rs':
-                continue
-            a0, b0 = f._seg_range
-            srctext = ''.join(sg.text for sg in g.segs[a0:b0] if sg.origin == 'src')
-            if re.search(r'\bnext_persist\b', srctext) and f.addr not in allowed and '#canary' not in f.addr:
-                scan_fail.append(f)
-        for f in scan_fail:
-            violations.append(runner.Failure(oid='O-C14-frame-scan', addr=f.addr, kind='frame', message='function reads or writes next_persist outside persist_on_policy',
-                                             gen_line=f.gen_first, src_file=f.src_file, src_line=f.src_line, tags=['C14'],
-                                             rendered='syntactic frame check: `next_persist` occurs in the body of %s' % f.addr))
     # thorough: vacuity canary + solver seeds
     canary = None
     seeds_ok = None
@@ -228,9 +214,6 @@ def main():
             run.tool_errors.append('spec lemma %s not proved' % ln)
     n_obl = len(verus_obs) + len([k for k in kres if not k['bounded']]) + len(lemma_status)
     n_dis = len(discharged) + len(kani_proof) + len([l for l in lemma_status if l['proved']])
-    if prop == 'C14':
-        n_obl += 1
-        n_dis += 0 if scan_fail else 1
     n_obl += len(synt)
     n_dis += len([x for x in synt if x['ok']])
     tool_cond = bool(run.tool_errors) or bool(kani_tool) or (canary is not None and canary['vacuous']) or (n_obl == 0 and P['level'] == 'proof')
